@@ -225,7 +225,10 @@ PtrForms == {"ptr_byte_slice", "ptr_byte_array"}
 (*         when the expression stays an untyped constant (operand of a constant    *)
 (*         len()).  Form typed_string always records the named type.               *)
 (* elided: the composite literal is written without its type ({...} inside an      *)
-(*         outer literal), so info.TypeOf(node.Type) is nil.                       *)
+(*         outer literal), so info.TypeOf(node.Type) is nil.  Since the repair of  *)
+(*         FL4 the code takes the type of the literal itself then (and reads an    *)
+(*         elided literal with a pointer element type as &T{...}); the old         *)
+(*         behaviour is the what-if ElidedTypeFromLiteral = FALSE.                 *)
 (* constreq: Go requires the enclosing expression to be constant.                  *)
 (* forms:  the forms for which the position is valid Go.                           *)
 C(prune, target, elided, constreq, forms) == [prune |-> prune, target |-> target, elided |-> elided, constreq |-> constreq, forms |-> forms]
@@ -236,7 +239,7 @@ Ctx == [
   arg              |-> C("none", "string", FALSE, FALSE, AllForms),
   return           |-> C("none", "string", FALSE, FALSE, AllForms),
   composite_elem   |-> C("none", "string", FALSE, FALSE, AllForms),
-  composite_elided |-> C("none", "string", TRUE,  FALSE, {"byte_slice", "byte_array", "uint8_slice"}),
+  composite_elided |-> C("none", "string", TRUE,  FALSE, ByteForms),
   map_key          |-> C("none", "string", FALSE, FALSE, StringForms \cup {"byte_array"}),
   map_value        |-> C("none", "string", FALSE, FALSE, AllForms),
   struct_field     |-> C("none", "string", FALSE, FALSE, AllForms),
@@ -264,7 +267,9 @@ Applicable(c, f, size) ==
   /\ (f \in ArrayForms /\ Ctx[c].constreq => size > 0)
 
 RecordedType(c, f) == IF f = "typed_string" THEN "named" ELSE Ctx[c].target
-TypeExprKind(c, f) == IF Ctx[c].elided THEN "nil" ELSE IF f = "uint8_slice" THEN "uint8" ELSE "byte"
+ElidedTypeFromLiteral == TRUE      \* what-if (cfg: ElidedTypeFromLiteral <- OldElided): the behaviour before the repair of FL4
+OldElided == FALSE
+TypeExprKind(c, f) == IF Ctx[c].elided /\ ~ElidedTypeFromLiteral THEN "nil" ELSE IF f = "uint8_slice" THEN "uint8" ELSE "byte"
 
 Rewritten(c, f, size) ==
   /\ Ctx[c].prune = "none"
@@ -294,7 +299,8 @@ LeadCells == {<<cell[1], cell[2]>> : cell \in {x \in Cells : Lead(x[1], x[2], x[
 (* The leads the transcription predicts on the unchanged tree (each is replayed on   *)
 (* the real tool by the checks; a reproduced lead is a finding, see known_findings). *)
 ExpectedLeads ==
-  {<<"composite_elided", f>> : f \in {"byte_slice", "byte_array", "uint8_slice"}}
+  IF ElidedTypeFromLiteral THEN {} ELSE {<<"composite_elided", f>> : f \in ByteForms}
+NoHideGap == LeadCells = {}          \* invariant of the what-if config, which TLC must find violated
 ASSUME LeadCells = ExpectedLeads
 
 (* Every position that must stay constant and is not a lead is kept, every cell    *)
